@@ -18,7 +18,8 @@ STRATS = ["minimize", "minimize-around", "minimize-balanced"]
 CFGS = [dict(), dict(rep="always"), dict(rep="never"), dict(min=2, max=2, rep="never"), dict(min=2, max=8), dict(repeat_first=True, rep="always")]
 FILES = {
     "line": [b"a\n{\nb\n}\n(\nc\n)\nd\n", b"h\nDDBEGIN\n{\na\n}\nb\nDDEND\nt\n", b"a\r\n{\rb\r\n}\n\x0bc\r"],
-    "char": [b"a{b}(c)d", b"h\nDDBEGIN\n{ab}c\nDDEND\nt", b"a\r\nb\rc"],
+    "char": [b"a{b}(c)d", b"h\nDDBEGIN\n{ab}c\nDDEND\nt", b"a\r\nb\rc", b"h\r\n// DDBEGIN\r\n(ab)c\r\n// DDEND\r\nt\r\n",
+             b"// DDBEGIN\rab\r// DDEND\r"],
     "symbol": [b"f(a){b;c};g[1]=2;\n", b"h\n// DDBEGIN\nf(a);g\nb;c\n// DDEND\nt\n", b"// DDBEGIN\r\na;b\rc;d\r\n// DDEND"],
     "jsstr": [b"x = 'a{b}c' + \"(d)\\x41\";\ny = 'zz';\n"],
     "attrs": [b"<a b=\"{\" c='}' d=e f><g h='(' i=\")\">text</g>\n"],
